@@ -8,6 +8,7 @@ import (
 	"os/signal"
 	"strings"
 	"sync"
+	"sync/atomic"
 	"syscall"
 	"time"
 
@@ -125,6 +126,7 @@ type world struct {
 	provShutdown int
 	watchers     map[int]confmap.WatcherFunc
 	hosts        map[string]component.Host // "g/id" -> host handed to Start
+	syncFatal    atomic.Int32              // FatalError reports made by components from inside their own Start/Shutdown
 	paused       chan *pausePoint
 	abandoned    chan struct{} // closed when the driver gave up (watchdog): paused components return
 }
@@ -180,6 +182,20 @@ func (w *world) loopEntered() bool {
 		}
 	}
 	return false
+}
+
+// reportCounts tells whether a FatalError report by component id of generation gen that has just returned was
+// certainly taken by the status state machine (some report of that component was, at the latest this one): its
+// Start had not failed (PermanentError only moves to Stopping) and its Shutdown had not returned (Stopped is final).
+func (w *world) reportCounts(gen int, id string) bool {
+	w.mu.Lock()
+	defer w.mu.Unlock()
+	for _, e := range w.log {
+		if e.Gen == gen && e.Comp == id && ((e.Op == "start-end" && e.Err) || e.Op == "shutdown-end") {
+			return false
+		}
+	}
+	return true
 }
 
 func (w *world) watcher(gen int) confmap.WatcherFunc {
@@ -394,8 +410,10 @@ func (c *comp) Start(_ context.Context, host component.Host) error {
 	w.hosts[fmt.Sprintf("%d/%s", c.gen, c.id)] = host
 	w.mu.Unlock()
 	w.add(c.gen, c.id, "start", false)
-	if g.FatalSync == "start" && pick(g.pipeComps(), g.FatalComp) == c.id {
+	if (g.FatalSync == "start" || g.FatalSync == "both") && pick(g.pipeComps(), g.FatalComp) == c.id {
+		// status is Starting: the report is taken
 		w.add(c.gen, c.id, "fatal-sync", false)
+		w.syncFatal.Add(1)
 		componentstatus.ReportStatus(host, componentstatus.NewFatalErrorEvent(errors.New(token("fatal", c.gen, c.id))))
 		w.add(c.gen, c.id, "fatal-sync-returned", false)
 	}
@@ -413,9 +431,11 @@ func (c *comp) Start(_ context.Context, host component.Host) error {
 func (c *comp) Shutdown(context.Context) error {
 	w, g := c.w, c.w.s.gen(c.gen)
 	w.add(c.gen, c.id, "shutdown", false)
-	if g.FatalSync == "shutdown" && pick(g.pipeComps(), g.FatalComp) == c.id {
+	if (g.FatalSync == "shutdown" || g.FatalSync == "both") && pick(g.pipeComps(), g.FatalComp) == c.id {
 		if h := w.host(c.gen, c.id); h != nil {
+			// status is Stopping (or already FatalError from an earlier report): one report has been / is taken
 			w.add(c.gen, c.id, "fatal-sync", false)
+			w.syncFatal.Add(1)
 			componentstatus.ReportStatus(h, componentstatus.NewFatalErrorEvent(errors.New(token("fatal", c.gen, c.id))))
 			w.add(c.gen, c.id, "fatal-sync-returned", false)
 		}
